@@ -60,6 +60,13 @@ fn main() {
         }
         return;
     }
+    if args.len() >= 5 && args[1] == "debug-regex" {
+        for s in &args[4..] {
+            let r = findutils::find::matchers::verif_hooks::regex_matches(&args[2], &args[3], false, s);
+            println!("{} {:?} ~ {s:?} -> {r:?}", args[2], args[3]);
+        }
+        return;
+    }
     if args.len() < 5 {
         eprintln!("usage: fuh <PROP> <quick|thorough> <seed> <outdir>");
         std::process::exit(2);
